@@ -204,8 +204,23 @@ type visitRec struct {
 }
 
 func buildDictFile(ps []dictPair, noFormat bool, viaFunc bool, rec *visitRec) *jen.File {
+	return buildDictFilePre(ps, noFormat, viaFunc, rec, false)
+}
+
+// c16QualPaths: every package path the key and value generators may refer to.
+var c16QualPaths = []string{"z.org/aaa", "m.org/mmm", "i.j/y", "g.h/y", "fmt", "e.f/x", "c.d/x", "b.org/yyy", "a.org/zzz", "a.b/x"}
+
+// buildDictFilePre: with pre, the File refers to every package before the Dict, in an order that gives the packages
+// names whose order differs from the order of their paths: the pairs are ordered by the key text as written (with
+// those names), and rendering the keys does not add anything to the import table.
+func buildDictFilePre(ps []dictPair, noFormat bool, viaFunc bool, rec *visitRec, pre bool) *jen.File {
 	f := jen.NewFile("p")
 	f.NoFormat = noFormat
+	if pre {
+		for i, p := range c16QualPaths {
+			f.Var().Id(fmt.Sprintf("pre%d", i)).Op("=").Qual(p, "Pre")
+		}
+	}
 	fill := func(d jen.Dict) {
 		for i, p := range ps {
 			k := p.mkKey()
@@ -395,7 +410,7 @@ func c16Case(r *mon.Run, idx int64) {
 		if useRec && mode == 0 {
 			rr = rec
 		}
-		f := buildDictFile(ps, mode == 1, mode == 2, rr)
+		f := buildDictFilePre(ps, mode == 1, mode == 2, rr, idx%3 == 1)
 		src, fail := renderFile(f)
 		if fail != "" {
 			r.Violate("dict-render-failure", c, "%s does not render (%s): %s", desc, []string{"formatted", "NoFormat", "DictFunc"}[mode], fail)
@@ -577,7 +592,7 @@ func c16IntCase(r *mon.Run, idx int64) {
 }
 
 func runC16(r *mon.Run) {
-	r.SetRule("random Dicts of 0-40 pairs; keys from literals, identifiers (incl. prefix-related a/ab/a.b/a[0]/aZ), calls, qualified identifiers, composite and binary expressions, keys derived by Clone from one shared prefix, forced render-identical duplicate keys, and pairs whose key and value both render identically, null keys/values (Null(), Add(), List(), typed nil, Tag(nil)); every value is a unique marker; rendered formatted, NoFormat and via DictFunc; non-trivial = >=2 pairs with both sides non-null; distinct by Dict text")
+	r.SetRule("random Dicts of 0-40 pairs; keys from literals, identifiers (incl. prefix-related a/ab/a.b/a[0]/aZ), calls, qualified identifiers, composite and binary expressions, keys derived by Clone from one shared prefix, forced render-identical duplicate keys, and pairs whose key and value both render identically, null keys/values (Null(), Add(), List(), typed nil, Tag(nil)); every value is a unique marker; rendered formatted, NoFormat and via DictFunc, a third of them in Files that referred to every package before (names already fixed, in an order unlike that of the paths); non-trivial = >=2 pairs with both sides non-null; distinct by Dict text")
 	r.Assume("'ordered by the rendered text of their keys' admits both the text as written and the text after gofmt; nil interface keys/values are API misuse and not generated")
 	c16NegControls(r)
 	n := r.Pick(12000, 1500000)
